@@ -125,6 +125,8 @@ def has_time(x):
 
 
 def scale_expr(e, k):
+    if isinstance(e, str) and e != "t":
+        return str(Fraction(e) * Fraction(k))
     return {"*": [str(k), e]}
 
 
@@ -145,6 +147,13 @@ def scale_population(p, k, density):
 def scalable(p):
     """an Overwrite on a flow name used by an absolute inflow (or a density contact rate) would replace the scaled value by an unscaled one"""
     absnames = {o["name"] for o in p["ops"] if o["op"] == "flow" and o["kind"] in ("importation", "absolute", "infection_density")}
+    # populations and inflows are scaled as literals (a product of a literal and a parameter object in the initial
+    # distribution can crash computegraph's Data.__eq__ - a dependency outside /repo, DESIGN.md 8.3)
+    for o in p["ops"]:
+        if o["op"] == "pop" and any(not isinstance(v, str) for v in o["dist"].values()):
+            return False
+        if o["op"] == "flow" and o["kind"] in ("importation", "absolute") and not isinstance(o["param"], str):
+            return False
     for o in p["ops"]:
         if o["op"] == "strat":
             for fn, adjs, _, _ in o.get("fadj", []):
